@@ -40,6 +40,7 @@ def jobs(tier, seed):
     else:
         add(['fixed', 'fixed', 'fixed', 'hop2'], [0, 1, 1, 0], 3)
         add(['hop1', 'fixed', 'fixed', 'fixed'], [1, 0, 1, 0], 1)
+    add(['rehop2', 'fixed'], [0, 1], 0); add(['fixed', 'rehop2'], [1, 1], 0); add(['rehop3', 'rehop2', 'fixed'], [1, 0, 1], 0); add(['rehop1', 'hop2'], [1, 0], 1)
     return out
 
 
@@ -59,7 +60,9 @@ def h_route(ctx, kinds, vers, src):
                 t._rx_freq = ctx.int(p + 'rx', 0, F); t._tx_freq = ctx.int(p + 'tx', 0, F)
                 model.append(('fixed', t._rx_freq, t._tx_freq))
             else:
-                k = int(kind[3:])
+                k = int(kind[-1])
+                if kind.startswith('rehop'):        # an earlier hopping configuration of another length was replaced (SETFH twice)
+                    t.enable_fh(ctx.int(p + 'old.hsn', 0, 63), ctx.int(p + 'old.maio', 0, 63), [(ctx.int('%sold%d.rx' % (p, j), 0, F), ctx.int('%sold%d.tx' % (p, j), 0, F)) for j in range(1 if k > 1 else 2)])
                 ma = [(ctx.int('%sma%d.rx' % (p, j), 0, F), ctx.int('%sma%d.tx' % (p, j), 0, F)) for j in range(k)]
                 hsn = ctx.int(p + 'hsn', 0, 63); maio = ctx.int(p + 'maio', 0, 63)
                 t.enable_fh(hsn, maio, ma)
